@@ -113,7 +113,7 @@ func C02(e *Env) {
 	var objs []c02Obj
 	sizes := append([]int64{}, tree.BoundarySizes...)
 	sizes = append(sizes, 1<<20+3)
-	for i := 0; i < e.Pick(60, 600); i++ {
+	for i := 0; i < e.Pick(60, 1500); i++ {
 		sizes = append(sizes, rng.Int63n(400000))
 	}
 	must(os.MkdirAll(filepath.Join(root, "files"), 0o755))
@@ -237,11 +237,7 @@ func C02(e *Env) {
 		run.Eval(len(s.reqs) - 1)
 		if res.Fail != nil {
 			wit := map[string]any{"object": s.obj, "target": t.name, "buffer_size": t.buf, "requests": trimReqs(s.reqs), "failed_at": res.FailAt, "failed_request": reqAt(s.reqs, res.FailAt), "transcript": tailStr(res.Log, 10)}
-			if res.Fail.Inconclusive {
-				run.Inconclusive(res.Fail.Error())
-			} else {
-				run.Violate(res.Fail.Rule, res.Fail.Feature, fmt.Sprintf("[%s %s size %d via %s buf=%d] %s", s.obj.kind, s.obj.rel, s.obj.size, t.name, t.buf, res.Fail.Detail), wit)
-			}
+			judgeModelFail(e, res.Fail, s.reqs, res.FailAt, "", res.Fail.Feature, fmt.Sprintf("[%s %s size %d via %s buf=%d] %s", s.obj.kind, s.obj.rel, s.obj.size, t.name, t.buf, res.Fail.Detail), wit)
 			return
 		}
 		run.Count("bytes_compared", res.Oracle.BytesCompared)
